@@ -67,6 +67,13 @@ def check_queue(ctx, tu, info, q):
         ctx.ob('C11.O4', f, 'predicate false and notification enabled => queue empty and nothing in dispatch', ok,
                detail='predicate %s, counterexample %s' % (F.show(pred), cex))
 
+    # the predicates the waits really use (they may spell the test out instead of calling doCanProcess)
+    from .c07 import wait_predicates
+    for wf, n, pred in wait_predicates(ctx, tu, q):
+        ok, cex = implies(('and', ('not', pred), N0), ('and', E, C0))
+        ctx.ob('C11.O4', wf, 'predicate false and notification enabled => queue empty and nothing in dispatch', ok,
+               detail='predicate %s, counterexample %s' % (F.show(pred), cex), where=wf.nloc(n))
+
     check_guard_span(ctx, tu, info, q, 'C11.O2')
 
     # O3 sole writer
